@@ -62,25 +62,26 @@ func checkAtomicReplace(p *Program, obs *obSet, sp atomicSpec) {
 		return site, true, v.ErrNil(site.fr, site.call)
 	}
 	// renamed reports whether the rename is known to have succeeded as seen from frame pf.
-	renamed := func(v *flowVisit, pf *sframe) (bool, string) {
+	renamed := func(v *flowVisit, pf *sframe) (bool, string, []*ssa.Call) {
 		x, ok := stGet(v.St, "R")
 		if !ok {
-			return false, "no os.Rename of the temporary file on this path"
+			return false, "no os.Rename of the temporary file on this path", nil
 		}
 		site := sites.at(x)
 		if !v.ErrNil(site.fr, site.call) {
-			return false, "the result of os.Rename is not known to be nil on this path"
+			return false, "the result of os.Rename is not known to be nil on this path", []*ssa.Call{site.call}
 		}
 		j, _ := strconv.Atoi(x)
 		for q := renameFrame[j]; q != nil && q.site != nil; q = q.parent {
 			if pf.within(q) {
 				continue
 			}
-			if c, isCall := q.site.(*ssa.Call); !isCall || !v.ErrNil(q.parent, c) {
-				return false, "the result of " + FuncName(q.fn) + " is not known to be nil on this path"
+			c, isCall := q.site.(*ssa.Call)
+			if !isCall || !v.ErrNil(q.parent, c) {
+				return false, "the result of " + FuncName(q.fn) + " is not known to be nil on this path", []*ssa.Call{c}
 			}
 		}
-		return true, ""
+		return true, "", nil
 	}
 
 	s.instr = func(v *flowVisit, in ssa.Instruction) (string, bool) {
@@ -167,7 +168,7 @@ func checkAtomicReplace(p *Program, obs *obSet, sp atomicSpec) {
 				case alsoClean && stHas(st, "TD"):
 					obs.fail(key, pos, "the temporary file is written again after its last Sync and before os.Rename", v.Path())
 				case !good:
-					obs.fail(key, pos, "os.Rename is reached although the result of "+siteKey(site.fr, site.call)+" is not known to be nil", v.Path())
+					obs.failErr(key, pos, "os.Rename is reached although the result of "+siteKey(site.fr, site.call)+" is not known to be nil", v.Path(), []*ssa.Call{site.call})
 				default:
 					obs.ok(key, pos, what+" with a nil result precedes os.Rename on every path", "by: "+siteKey(site.fr, site.call))
 				}
@@ -221,11 +222,11 @@ func checkAtomicReplace(p *Program, obs *obSet, sp atomicSpec) {
 			}
 			if sp.pubField != nil && fld == sp.pubField && hasFlag(st, "T") {
 				key := "in-memory " + fld.Name() + " replaced only after the rename succeeded in " + chain
-				if ok, why := renamed(v, v.Fr); ok {
+				if ok, why, cs := renamed(v, v.Fr); ok {
 					obs.ok(key, p.InstrPos(in), "the store is reached only on paths where os.Rename (and the helper performing it) returned nil")
 				} else {
 					v.Note("%s: store to %s", p.InstrPos(in), fld.Name())
-					obs.fail(key, p.InstrPos(in), "the in-memory "+fld.Name()+" is replaced although "+why, v.Path())
+					obs.failErr(key, p.InstrPos(in), "the in-memory "+fld.Name()+" is replaced although "+why, v.Path(), cs)
 				}
 				return st, false
 			}
@@ -236,11 +237,11 @@ func checkAtomicReplace(p *Program, obs *obSet, sp atomicSpec) {
 				return st, true
 			}
 			key := "nil-error return only after the rename succeeded in " + sp.root
-			if ok, why := renamed(v, v.Fr); ok {
+			if ok, why, cs := renamed(v, v.Fr); ok {
 				obs.ok(key, p.InstrPos(in), "every nil-error return after the temporary file was created follows a successful os.Rename")
 			} else {
 				v.Note("%s: return nil", p.InstrPos(in))
-				obs.fail(key, p.InstrPos(in), "success is returned although "+why, v.Path())
+				obs.failErr(key, p.InstrPos(in), "success is returned although "+why, v.Path(), cs)
 			}
 			if sp.oldField != nil {
 				key := sp.what + " file reopened after os.Rename before the nil-error return in " + sp.root
@@ -259,6 +260,18 @@ func checkAtomicReplace(p *Program, obs *obSet, sp atomicSpec) {
 	if s.Overflow {
 		obs.undecided("temp/rename protocol in "+sp.root, p.Pos(fn.Pos()), "path exploration exceeded its bound")
 		return
+	}
+	if in := s.DeferredMatch(func(in ssa.Instruction) bool {
+		if callNamed(in, "os.Rename") != nil {
+			return true
+		}
+		if _, fld := storeField(in); fld != nil && (fld == sp.pubField || fld == sp.oldField) {
+			return true
+		}
+		k, _, _ := fileEvent(in)
+		return k == "write" || k == "truncate" || k == "sync" || k == "close"
+	}); in != nil {
+		obs.undecided("temp/rename protocol in "+sp.root, p.InstrPos(in), "a deferred function, or a helper beyond the inlining depth, takes part in the protocol (writes, syncs, closes, renames or publishes); the rule does not order those")
 	}
 	if !seenCreate {
 		obs.lost("os.CreateTemp reachable from " + sp.root)
@@ -288,8 +301,10 @@ func hasFlag(st, name string) bool {
 //     isTarget), at most guarded by captured booleans;
 //   - if the removal is guarded by a captured flag being false, that flag is set to true in fn
 //     only after the rename succeeded;
-//   - the defer is registered before any fallible step that follows the creation of the temporary
-//     (every return of fn after the temp exists passes the defer).
+//   - the defer is registered before the first step of the replace protocol (Sync, Close,
+//     os.Rename): a failing return after such a step has passed the defer. Failures while the
+//     temporary is still being written are not covered: the pinned code leaves the file to
+//     fileutil.RemoveTmpFiles at the next start, and every caller treats the failure as fatal.
 func checkTempCleanup(p *Program, obs *obSet, key string, fn *ssa.Function, rename *ssa.Call, isTarget func(path ssa.Value) bool) {
 	pos := p.InstrPos(rename)
 	type found struct {
@@ -381,7 +396,10 @@ func checkTempCleanup(p *Program, obs *obSet, key string, fn *ssa.Function, rena
 			return stAdd(st, "D"), false
 		}
 		if in == ssa.Instruction(rename) {
-			return stAdd(st, "R"), false
+			return stAdd(st, "R", "P"), false
+		}
+		if k, _, _ := fileEvent(in); k == "sync" || k == "close" {
+			st = stAdd(st, "P")
 		}
 		if c, ok := in.(*ssa.Call); ok && tempIsLocal {
 			switch calleeName(c.Common()) {
@@ -410,9 +428,9 @@ func checkTempCleanup(p *Program, obs *obSet, key string, fn *ssa.Function, rena
 			if succ, known := successReturn(ret); known && succ {
 				return st, true // nothing to clean up after a success
 			}
-			if stHas(st, "T") && !stHas(st, "D") && !createFailed(v, fn) {
+			if stHas(st, "T") && stHas(st, "P") && !stHas(st, "D") && !createFailed(v, fn) {
 				v.Note("%s: return", p.InstrPos(in))
-				obs.fail(key, p.InstrPos(in), "the function can return after the temporary exists and before the cleanup is deferred", v.Path(), facts...)
+				obs.fail(key, p.InstrPos(in), "the function can fail after a step of the replace protocol (Sync, Close, rename) and before the cleanup is deferred", v.Path(), facts...)
 				breach = true
 			}
 			return st, true
